@@ -4,9 +4,9 @@ meta.json (package dir, test names, build tags) from the demo file and NOTES.md.
 usage: vseed_import.py <property> [k ...]"""
 import json, os, re, shutil, sys
 
-def imp(prop, k):
-    src = f"/tmp/seed/{prop}/SEED/{k}"
-    dst = f"/verif/seeded/{prop}-{k}"
+def imp(prop, k, src=None, name=None):
+    src = src or f"/tmp/seed/{prop}/SEED/{k}"
+    dst = f"/verif/seeded/{name or prop + '-' + str(k)}"
     if not os.path.isdir(src):
         return None
     os.makedirs(dst, exist_ok=True)
@@ -37,7 +37,23 @@ def imp(prop, k):
     json.dump(meta, open(old, "w"), indent=1)
     return dst, meta["demo"]["cmd"]
 
+WAVE2 = {  # /tmp/seed2/<dir>/SEED/<k> -> (property, seeded name)
+    "C01": {1: ("C01", "C01-3"), 2: ("C01", "C01-4")},
+    "C04": {1: ("C04", "C04-3"), 2: ("C04", "C04-4"), 3: ("C18", "C18-3")},
+    "C09": {1: ("C09", "C09-3"), 2: ("C09", "C09-4"), 3: ("C10", "C10-3"), 4: ("C10", "C10-4")},
+    "C11": {1: ("C11", "C11-3"), 2: ("C11", "C11-4"), 3: ("C12", "C12-3"), 4: ("C12", "C12-4"), 5: ("C13", "C13-3")},
+    "C02": {1: ("C02", "C02-3"), 2: ("C02", "C02-4"), 3: ("C03", "C03-3"), 4: ("C14", "C14-3"), 5: ("C14", "C14-4"), 6: ("C20", "C20-3")},
+    "C05": {1: ("C05", "C05-3"), 2: ("C05", "C05-4"), 3: ("C05", "C05-5"), 4: ("C17", "C17-3"), 5: ("C17", "C17-4")},
+    "C06": {1: ("C06", "C06-3"), 2: ("C06", "C06-4"), 3: ("C07", "C07-3"), 4: ("C07", "C07-4"), 5: ("C08", "C08-3"), 6: ("C19", "C19-3"), 7: ("C19", "C19-4")},
+    "C15": {1: ("C15", "C15-3"), 2: ("C15", "C15-4"), 3: ("C16", "C16-3"), 4: ("C16", "C16-4")},
+}
+
 if __name__ == "__main__":
+    if sys.argv[1] == "wave2":
+        d = sys.argv[2]
+        for k, (prop, name) in sorted(WAVE2[d].items()):
+            print(imp(prop, k, src=f"/tmp/seed2/{d}/SEED/{k}", name=name))
+        sys.exit(0)
     prop = sys.argv[1]
     ks = sys.argv[2:] or ["1", "2"]
     for k in ks:
